@@ -15,6 +15,14 @@ locations (vh.sut.fs_remote; two deployments, several locations each, all deploy
 deployment manager); the source is registered first, as the engine does.  The destination is
 walked with os.* inside each destination location, dereferenced, and compared with the contract;
 the data-manager lookup for the destination root is checked on every destination location.
+
+Histories (RemoteFSTransferHistory.tla): the same source is transferred two or three times to fresh
+paths of ONE other location, read-only or writable, and a copy may be lost (removed +
+invalidate_location) in between - the situations in which transfer_data may serve a transfer from a
+copy already on the destination location.  TLC enumerates the 400 histories and checks that every
+copy reported as available resolves; the harness replays the maximal ones on the real data manager
+and judges every transfer by the same contract (plus: older copies still reported as available must
+still dereference to the source tree).
 """
 from __future__ import annotations
 
@@ -53,6 +61,28 @@ def select(ctx, items):
             rest.append(i)
     chosen += rest[: max(0, n - len(chosen))]
     return [items[i] for i in sorted(chosen)]
+
+
+def select_histories(ctx, hists):
+    """Maximal histories (3 transfers) only - their prefixes are checked on the way.  quick: one history
+    for every (pair, source, first transfer ro/rw, first copy lost?, second transfer ro/rw), seeded;
+    thorough: all."""
+    full = [h for h in hists if sum(1 for e in h["hist"] if e["ev"] == "T") == 3]
+    if not ctx.quick:
+        return full
+    rng = ctx.rng("histories")
+    order = list(range(len(full)))
+    rng.shuffle(order)
+    seen, chosen = set(), []
+    for i in order:
+        h = full[i]
+        ev = h["hist"]
+        cls = (h["hcase"]["pair"], h["hcase"]["src"], ev[0]["w"], ev[1]["ev"] == "L",
+               next(e["w"] for e in ev[1:] if e["ev"] == "T"))
+        if cls not in seen:
+            seen.add(cls)
+            chosen.append(i)
+    return [full[i] for i in sorted(chosen)]
 
 
 def bind(ctx, items, template):
@@ -100,7 +130,21 @@ def run(ctx):
     sel = select(ctx, items)
     ctx.count("model_cases", len(items))
     ctx.count("bound_cases", len(sel))
-    ctx.exhaustive = len(sel) == len(items)
+    # histories: 2-3 transfers of one source to one destination location with losses in between
+    rh = ctx.tlc("RemoteFS", "MC_RemoteFSTransferHistory", "MC_RemoteFSTransferHistory.cfg", timeout=900)
+    ctx.require(rh.ok, "RemoteFSTransferHistory violates %s: specification error\n%s" % (rh.violated, rh.stdout[-1500:]))
+    hu = {}
+    for it in rh.printed_json():
+        if isinstance(it, dict) and "hcase" in it:
+            hu.setdefault(json.dumps([it["hcase"], it["hist"]], sort_keys=True), it)
+    hists = [hu[k] for k in sorted(hu)]
+    ctx.require(len(hists) == 400, "expected 400 histories from the model, got %d" % len(hists))
+    ctx.require(any(e["ev"] == "L" for h in hists for e in h["hist"]), "no history with a lost copy")
+    sel_h = select_histories(ctx, hists)
+    ctx.count("model_histories", len(hists))
+    ctx.count("bound_histories", len(sel_h))
+    ctx.exhaustive = len(sel) == len(items) and len(sel_h) == 320
+    sel = sel + sel_h
     template = FR.Toolbox(ctx.scratch("toolbox")).template
     t1 = time.time()
     total = bind(ctx, sel, template)
@@ -114,6 +158,10 @@ def run(ctx):
                  "pair:R>R:other-connector", "src:richdir", "src:emptyfile", "src:emptydir", "dst:dir", "dst:absent_deep",
                  "writable:True", "writable:False", "n:2"]:
         ctx.require(total["by"].get(need, 0) > 0, "class never executed: %s" % need)
+    for need in ["histories", "history-with-invalidation:True", "history-pair:L>R", "history-pair:R>L",
+                 "history-pair:R>R:same-connector", "history-pair:R>R:other-connector"]:
+        ctx.require(total["by"].get(need, 0) > 0, "class never executed: %s" % need)
+    ctx.sample({"history": sel_h[0]["hcase"], "events": sel_h[0]["hist"]})
     for it in sel[:2]:
         ctx.sample({"case": it["case"], "root": it["root"], "expected_tree": [[e["p"], e["k"], e["c"], e["x"]] for e in it["tree"]]})
     ctx.assumptions += [
@@ -136,6 +184,11 @@ def replay(ctx, data):
     async def main():
         b = await T.Bench(ctx.scratch("replay")).start()
         try:
+            if "hcase" in d:
+                await T.run_history(b, {"hcase": d["hcase"], "hist": d["hist"], "source": d["source"], "tree": d["tree"]},
+                                    T.Inst(d["name_class"], d["content_class"], data.get("seed", 0)),
+                                    lambda s, det, w: out.append((s, det, w)))
+                return
             it = {"case": d["case"], "source": d["source"], "tree": d["tree"], "root": d["root"]}
             dev = "plain" if (d["name_class"], d["content_class"]) == ("plain", "text") else \
                 "name=%s" % d["name_class"] if d["name_class"] != "plain" else "content=%s" % d["content_class"]
